@@ -782,7 +782,7 @@ def plan_file(fi, f, rng, thorough):
             for k, l in bad:
                 singles.append([(pi, k, l)])
     else:
-        q = 7
+        q = 10
         for pi in range(npos):
             for j in range(q):
                 k, l = bad[(pi * q + j) % len(bad)]
@@ -791,7 +791,7 @@ def plan_file(fi, f, rng, thorough):
             for pi in {0, npos - 1, rng.randrange(npos), rng.randrange(npos)}:
                 singles.append([(pi, k, l)])
     multis = []
-    for _ in range(1500 if thorough else 100):
+    for _ in range(1500 if thorough else 200):
         m = rng.choice([2, 2, 3, 4])
         multis.append([(rng.randrange(npos),) + bad[rng.randrange(len(bad))] for _ in range(m)])
     for c in chunks(singles + multis, 120):
@@ -806,6 +806,58 @@ def plan_file(fi, f, rng, thorough):
     for c in chunks(cuts, 150):
         items.append(("cut", fi, c))
     return items
+
+
+WITNESS_DBC = (b'VERSION ""\n\nNS_ :\n\nBS_:\n\nBU_: E1\n\nBO_ 291 WitFrame: 8 E1\n SG_ WitSig : 0|8@1+ (1,0) [0|255] "" E1\n'
+               b' SG_ WitSig2 : 8|8@1+ (1,0) [0|255] "" E1\n\nBA_DEF_ BO_ "GenMsgCycleTime" INT 0 65535;\n')
+WITNESS_SYM = b'FormatVersion=5.0 // Do not edit this line!\nTitle="w"\n{ENUMS}\n{SENDRECEIVE}\n\n[WitFrame]\nID=123h\nType=Standard\nDLC=8\n'
+
+
+def witnesses(chk):
+    """the `_refuted` witnesses of props/C20.v rendered as text and replayed on the real readers (run first, like a corpus), and the
+    witness that the excluded positions (inside a signal list) are excluded for a reason"""
+    clean, err = load(WITNESS_DBC, "dbc")
+    nf0 = nf_of(clean)
+    for kind, line in (("dangling", 'SG_MUL_VAL_ 291 NoSuchSig WitSig 1-1;'), ("wrongtype", 'SG_MUL_VAL_ 291 WitSig2 WitSig 1-1, x-2;'),
+                       ("wrongtype", 'VAL_ 291 WitSig 7 "Seven" x "Off";'), ("wrongtype", 'BA_ "GenMsgCycleTime" BO_ 291 abc;'),
+                       ("typed", 'BA_ "GenMsgCycleTime" BO_ 291 "fast";')):
+        data = WITNESS_DBC + line.encode() + b"\n"
+        db, err = load(data, "dbc")
+        chk.case(("witness", line), True)
+        chk.count("witness-replays")
+        inp = dict(file="witness.dbc", format="dbc", inserted=[dict(kind=kind, line=line)], faulted_file_b64=b64(data),
+                   theorem="C20_dbc_orig_fail_before_mutation_refuted / C20_dbc_orig_post_total_refuted")
+        if err:
+            chk.violation("dbc-typed-raises" if kind == "typed" else "dbc-badline-raises",
+                          "an exception escapes loads() (witness of the refuted theorem about the reader as found)", inp, "no exception", err)
+        elif kind != "typed" and matgen.diff(nf0, nf_of(db)):
+            chk.violation("dbc-badline-changes-result", "a failing statement has changed the matrix before failing (witness of the refuted "
+                          "theorem about the reader as found)", inp, "normal form of the clean file",
+                          [list(map(str, d)) for d in matgen.diff(nf0, nf_of(db))[:4]])
+    # envelope: a failing statement between a BO_ line and its SG_ line may lose the signal (C20_dbc_insertion_inside_signal_list_refuted)
+    data = WITNESS_DBC.replace(b" SG_ WitSig :", b'CM_ SG_ 999 WitSig "x";\n SG_ WitSig :')
+    db, err = load(data, "dbc")
+    lost = err is None and [s.name for f in db.frames for s in f.signals] == []
+    chk.count("envelope-witness-inside-signal-list-loses-signals" if lost else "envelope-witness-not-reproduced")
+    if not lost:
+        chk.tie_break("envelope-witness", "CM_ SG_ 999 .. between BO_ and SG_", "signals lost (loop variable frame = None)",
+                      err or [s.name for f in db.frames for s in f.signals])
+    clean, err = load(WITNESS_SYM + b"Var=WitSig unsigned 8,8\n", "sym")
+    nf0 = nf_of(clean)
+    for line, full in (("Mux=WitMux 0,4 zz", WITNESS_SYM + b"Mux=WitMux 0,4 zz\nVar=WitSig unsigned 8,8\n"),
+                       ("Mux=WitMux 0,4 7 -m /f:abc", WITNESS_SYM + b"Var=WitSig unsigned 8,8\nMux=WitMux 0,4 7 -m /f:abc\n")):
+        db, err = load(full, "sym")
+        chk.case(("witness", line), True)
+        chk.count("witness-replays")
+        inp = dict(file="witness.sym", format="sym", inserted=[dict(kind="wrongtype", line=line)], faulted_file_b64=b64(full),
+                   theorem="C20_sym_orig_refuted")
+        if err:
+            chk.violation("sym-badline-raises", "an exception escapes loads() (witness of the refuted theorem about the reader as found)",
+                          inp, "no exception", err)
+        elif matgen.diff(nf0, nf_of(db)):
+            chk.violation("sym-badline-changes-result", "a failing Mux= line changes what follows (witness of the refuted theorem about "
+                          "the reader as found)", inp, "normal form of the clean file",
+                          [list(map(str, d)) for d in matgen.diff(nf0, nf_of(db))[:4]])
 
 
 def run(chk):
@@ -825,7 +877,8 @@ def run(chk):
     cm = core.import_impl()
     C = cm.canmatrix
     rng = chk.rng
-    FILES = make_files(rng, 24 if thorough else 4, 24 if thorough else 4, C)
+    witnesses(chk)
+    FILES = make_files(rng, 24 if thorough else 8, 24 if thorough else 8, C)
     items = []
     for fi, f in enumerate(FILES):
         st = file_state(fi)
@@ -874,5 +927,484 @@ def run(chk):
     tie(chk, ok, rng, thorough)
 
 
+# ------------------------------------------------------------------------------------------------------------------
+# TIE: the statement languages of model/LineFold.v against the real readers
+# ------------------------------------------------------------------------------------------------------------------
+TIE_DBC_FEATURES = dict(n_frames=(2, 4), mux="mixed", value_tables=True, comments=True, attributes=True, multi_senders=True,
+                        cycle_times=True, initial_values=True, max_len=8, signal_groups=True, global_value_tables=True)
+TIE_SYM_FEATURES = dict(n_frames=(2, 4), mux="mixed", value_tables=True, comments=True, cycle_times=True, unit_max=16, max_len=8)
+
+
+class Interner(object):
+    def __init__(self):
+        self.code = {"GenMsgCycleTime": 1}
+        self.text = {1: "GenMsgCycleTime"}
+
+    def __call__(self, t):
+        if t not in self.code:
+            c = len(self.code) + 10
+            self.code[t] = c
+            self.text[c] = t
+        return self.code[t]
+
+
+def NUM(v):
+    return [0, int(v)]
+
+
+def STR(c):
+    return [1, int(c)]
+
+
+BAD = [2, 0]
+_RE_BA_BO = re.compile(r'^BA_ +"([^"]+)" +BO_ +(\d+) +(.+?) *;$')
+_RE_BA_SG = re.compile(r'^BA_ +"([^"]+)" +SG_ +(\d+) +(\S+) +(.+?) *;$')
+_RE_CM_BO = re.compile(r'^CM_ +BO_ +(\d+) +"(.*)" *;$', re.S)
+_RE_CM_SG = re.compile(r'^CM_ +SG_ +(\d+) +(\S+) +"(.*)" *;$', re.S)
+_RE_VAL = re.compile(r'^VAL_ +(\d+) +(\S+) +(.*?) *;$')
+_RE_MULVAL = re.compile(r'^SG_MUL_VAL_ +(\d+) +(\S+) +(\S+) +(.*?) *;$')
+_RE_VALPAIR = re.compile(r'(-?\d+) +"([^"]*)"')
+
+
+class Unsupported(Exception):
+    pass
+
+
+def dbc_tokenise(lines, I):
+    """well-formed canmatrix DBC output -> model statements (everything that is not BO_/SG_/BA_ BO_|SG_/CM_ BO_|SG_/VAL_/SG_MUL_VAL_
+    becomes an unknown line).  Returns list of (group, text)."""
+    out = []
+    for (_, _, _, raw) in lines:
+        t = raw.decode("latin1").rstrip("\r\n")
+        s = t.strip()
+        g = [9, 0]
+        m = _BO.match(s)
+        if m:
+            g = [1] + NUM(m.group(1)) + STR(I(m.group(2))) + NUM(m.group(3)) + STR(I(m.group(4)))
+        elif s.startswith("SG_ "):
+            m = _SG.match(s)
+            if not m:
+                raise Unsupported(s)
+            mux = m.group(2)
+            if mux is None:
+                mf = [0] + BAD
+            elif mux == "M":
+                mf = [1] + STR(0)
+            elif mux.endswith("M"):
+                raise Unsupported(s)
+            else:
+                mf = [1] + NUM(mux[1:])
+            g = [2] + STR(I(m.group(1))) + mf + NUM(m.group(3)) + NUM(m.group(4)) + NUM(m.group(5)) + NUM(1 if m.group(6) == "-" else 0) \
+                + NUM(I(m.group(7).strip())) + NUM(I(m.group(8).strip()))
+        elif s.startswith("CM_ ") and not _DBC_CM_END.search(raw.strip()):
+            raise Unsupported("multi-line comment")
+        elif _RE_BA_BO.match(s):
+            m = _RE_BA_BO.match(s)
+            v = m.group(3)
+            g = [3, I(m.group(1))] + NUM(m.group(2)) + (STR(I(v)) if v.startswith('"') else NUM(I(v)))
+        elif _RE_BA_SG.match(s):
+            m = _RE_BA_SG.match(s)
+            v = m.group(4)
+            g = [4, I(m.group(1))] + NUM(m.group(2)) + STR(I(m.group(3))) + (STR(I(v)) if v.startswith('"') else NUM(I(v)))
+        elif _RE_CM_BO.match(s):
+            m = _RE_CM_BO.match(s)
+            g = [5] + NUM(m.group(1)) + STR(I(m.group(2)))
+        elif _RE_CM_SG.match(s):
+            m = _RE_CM_SG.match(s)
+            g = [6] + NUM(m.group(1)) + STR(I(m.group(2))) + STR(I(m.group(3)))
+        elif _RE_VAL.match(s):
+            m = _RE_VAL.match(s)
+            g = [7, 1] + NUM(m.group(1)) + STR(I(m.group(2)))
+            for k, lab in _RE_VALPAIR.findall(m.group(3)):
+                g += NUM(k) + STR(I(lab))
+        elif _RE_MULVAL.match(s):
+            m = _RE_MULVAL.match(s)
+            g = [8, 1] + NUM(m.group(1)) + STR(I(m.group(2))) + STR(I(m.group(3)))
+            for r in m.group(4).split(","):
+                a, b = r.strip().split("-")
+                g += NUM(a) + NUM(b)
+        else:
+            m = re.match(r"^(BO_TX_BU_|SIG_GROUP_|SIG_VALTYPE_) +(\d+) ", s)
+            if m:
+                g = [10] + NUM(m.group(2))           # these statements leave the looked-up frame in the loop variable `frame`
+        out.append((g, t))
+    return out
+
+
+def dbc_tie_inserts(ctx, I, rng):
+    """statements to insert, as (group, text): malformed ones of the three kinds, dangling references, and VALID extra statements
+    (they exercise the loop variable `frame`, which the model keeps as `cur`)"""
+    fid = rng.choice(ctx["frame_ids"])
+    sid, sname = rng.choice(ctx["sigs"])
+    new = ctx["fresh_id"]
+    ecu = "TieEcu"
+    E, SN = STR(I(ecu)), STR(I(sname))
+    one, zero = NUM(I("1")), NUM(I("0"))
+    sg_ok = lambda name: [2] + STR(I(name)) + [0] + BAD + NUM(0) + NUM(8) + NUM(1) + NUM(0) + one + zero
+    out = [
+        ([9, 0], 'FOO_ 1 2 3;'),
+        ([9, 0], 'BA_REL_ "X" BU_SG_REL_ %s SG_ %d %s 100;' % (ecu, sid, sname)),
+        ([10] + NUM(fid), 'BO_TX_BU_ %d : %s;' % (fid, ecu)),
+        ([10] + NUM(999), 'BO_TX_BU_ 999 : %s;' % ecu),
+        ([10] + BAD, 'BO_TX_BU_ abc : %s;' % ecu),
+        ([10] + NUM(sid), 'SIG_GROUP_ %d TieGroup 1 : %s;' % (sid, sname)),
+        # BO_
+        ([1] + NUM(new) + STR(I("TieFrame")) + NUM(8) + E, 'BO_ %d TieFrame: 8 %s' % (new, ecu)),
+        ([1] + NUM(fid) + STR(I("TieDup")) + NUM(4) + E, 'BO_ %d TieDup: 4 %s' % (fid, ecu)),
+        ([1] + BAD + STR(I("TieFrame")) + NUM(8) + E, 'BO_ abc TieFrame: 8 %s' % ecu),
+        ([1] + NUM(new) + STR(I("TieFrame")) + BAD + E, 'BO_ %d TieFrame: x8 %s' % (new, ecu)),
+        ([1] + NUM(new) + BAD + BAD + BAD, 'BO_ %d' % new),
+        ([1] + NUM(new) + STR(I("TieFrame")) + BAD + BAD, 'BO_ %d TieFrame' % new),
+        ([1] + NUM(new) + STR(I("TieFrame")) + NUM(8) + BAD, 'BO_ %d TieFrame: 8' % new),
+        ([1] + NUM(5000) + STR(I("TieFrame")) + NUM(8) + E, 'BO_ 5000 TieFrame: 8 %s' % ecu),      # 11-bit identifier out of range
+        # SG_
+        (sg_ok("TieSig"), ' SG_ TieSig : 0|8@1+ (1,0) [0|255] "" Vector__XXX'),
+        ([2] + STR(I("TieSigM")) + [1] + NUM(3) + NUM(9) + NUM(4) + NUM(0) + NUM(1) + one + zero,
+         ' SG_ TieSigM m3 : 9|4@0- (1,0) [0|0] "" Vector__XXX'),
+        ([2] + STR(I("TieSig")) + [0] + BAD + BAD + NUM(8) + NUM(1) + NUM(0) + one + zero, ' SG_ TieSig : x|8@1+ (1,0) [0|255] "" Vector__XXX'),
+        ([2] + STR(I("TieSig")) + [0] + BAD + NUM(0) + BAD + NUM(1) + NUM(0) + one + zero, ' SG_ TieSig : 0|y@1+ (1,0) [0|255] "" Vector__XXX'),
+        ([2] + STR(I("TieSig")) + [0] + BAD + NUM(0) + NUM(8) + NUM(1) + NUM(0) + BAD + zero, ' SG_ TieSig : 0|8@1+ (abc,0) [0|255] "" Vector__XXX'),
+        ([2] + STR(I("TieSig")) + [0] + BAD + NUM(0) + NUM(8) + NUM(1) + NUM(0) + one + BAD, ' SG_ TieSig : 0|8@1+ (1,e) [0|255] "" Vector__XXX'),
+        ([2] + STR(I("TieSig")) + [1] + BAD + NUM(0) + NUM(8) + NUM(1) + NUM(0) + one + zero, ' SG_ TieSig mX : 0|8@1+ (1,0) [0|255] "" Vector__XXX'),
+        ([2] + STR(I("TieSig")) + [0] + BAD + NUM(0) + BAD + BAD + BAD + BAD + BAD, ' SG_ TieSig : 0|'),
+        ([2] + STR(I("TieSig")) + [0] + BAD + NUM(0) + NUM(8) + NUM(1) + NUM(0) + one + BAD, ' SG_ TieSig : 0|8@1+ (1,'),
+        ([2] + STR(I("TieSig")) + [0] + BAD + BAD + BAD + BAD + BAD + BAD + BAD, ' SG_ TieSig'),
+        # BA_
+        ([3, 1] + NUM(fid) + NUM(I("55")), 'BA_ "GenMsgCycleTime" BO_ %d 55;' % fid),
+        ([3, 1] + NUM(fid) + BAD, 'BA_ "GenMsgCycleTime" BO_ %d abc;' % fid),
+        ([3, 1] + NUM(fid) + STR(I('"fast"')), 'BA_ "GenMsgCycleTime" BO_ %d "fast";' % fid),
+        ([3, 1] + BAD + NUM(I("55")), 'BA_ "GenMsgCycleTime" BO_ abc 55;'),
+        ([3, 1] + NUM(fid) + BAD, 'BA_ "GenMsgCycleTime" BO_ %d 55' % fid),
+        ([3, 1] + NUM(fid) + BAD, 'BA_ "GenMsgCycleTime" BO_ %d' % fid),
+        ([3, 1] + NUM(999) + NUM(I("55")), 'BA_ "GenMsgCycleTime" BO_ 999 55;'),
+        ([3, I("FrHexAttr")] + NUM(fid) + NUM(I("77")), 'BA_ "FrHexAttr" BO_ %d 77;' % fid),
+        ([4, I("SigFloatAttr")] + NUM(sid) + SN + NUM(I("2.5")), 'BA_ "SigFloatAttr" SG_ %d %s 2.5;' % (sid, sname)),
+        ([4, I("SigFloatAttr")] + NUM(sid) + SN + BAD, 'BA_ "SigFloatAttr" SG_ %d %s abc;' % (sid, sname)),
+        ([4, I("SigFloatAttr")] + BAD + SN + NUM(I("2.5")), 'BA_ "SigFloatAttr" SG_ abc %s 2.5;' % sname),
+        ([4, I("SigFloatAttr")] + NUM(sid) + STR(I("NoSuchSig")) + NUM(I("2.5")), 'BA_ "SigFloatAttr" SG_ %d NoSuchSig 2.5;' % sid),
+        ([4, I("SigFloatAttr")] + NUM(sid) + SN + BAD, 'BA_ "SigFloatAttr" SG_ %d %s' % (sid, sname)),
+        # CM_
+        ([5] + NUM(fid) + STR(I("tie comment")), 'CM_ BO_ %d "tie comment";' % fid),
+        ([5] + NUM(999) + STR(I("tie comment")), 'CM_ BO_ 999 "tie comment";'),
+        ([5] + BAD + STR(I("tie comment")), 'CM_ BO_ abc "tie comment";'),
+        ([5] + NUM(fid) + BAD, 'CM_ BO_ %d' % fid),
+        ([6] + NUM(sid) + SN + STR(I("tie comment")), 'CM_ SG_ %d %s "tie comment";' % (sid, sname)),
+        ([6] + NUM(999) + SN + STR(I("tie comment")), 'CM_ SG_ 999 %s "tie comment";' % sname),
+        ([6] + NUM(sid) + STR(I("NoSuchSig")) + STR(I("tie comment")), 'CM_ SG_ %d NoSuchSig "tie comment";' % sid),
+        ([6] + BAD + SN + STR(I("tie comment")), 'CM_ SG_ abc %s "tie comment";' % sname),
+        ([6] + NUM(sid) + SN + BAD, 'CM_ SG_ %d %s' % (sid, sname)),
+        # VAL_
+        ([7, 1] + NUM(sid) + SN + NUM(7) + STR(I("Seven")), 'VAL_ %d %s 7 "Seven";' % (sid, sname)),
+        ([7, 1] + NUM(sid) + SN + NUM(7) + STR(I("Seven")) + BAD + STR(I("Off")), 'VAL_ %d %s 7 "Seven" x "Off";' % (sid, sname)),
+        ([7, 1] + NUM(sid) + SN + NUM(7) + BAD, 'VAL_ %d %s 7 "Trunc;Label' % (sid, sname)),
+        ([7, 0] + NUM(sid) + SN + NUM(7) + STR(I("Seven")), 'VAL_ %d %s 7 "Seven"' % (sid, sname)),
+        ([7, 1] + NUM(999) + SN + NUM(7) + STR(I("Seven")), 'VAL_ 999 %s 7 "Seven";' % sname),
+        ([7, 1] + NUM(sid) + STR(I("NoSuchSig")) + NUM(7) + STR(I("Seven")), 'VAL_ %d NoSuchSig 7 "Seven";' % sid),
+        ([7, 1] + BAD + SN + NUM(7) + STR(I("Seven")), 'VAL_ abc %s 7 "Seven";' % sname),
+        # SG_MUL_VAL_
+        ([8, 1] + NUM(sid) + SN + STR(I("TieMuxer")) + NUM(2) + NUM(3), 'SG_MUL_VAL_ %d %s TieMuxer 2-3;' % (sid, sname)),
+        ([8, 1] + NUM(sid) + SN + STR(I("TieMuxer")) + NUM(2) + NUM(3) + BAD + NUM(5), 'SG_MUL_VAL_ %d %s TieMuxer 2-3, x-5;' % (sid, sname)),
+        ([8, 1] + NUM(sid) + SN + STR(I("TieMuxer")) + BAD + BAD, 'SG_MUL_VAL_ %d %s TieMuxer a-b;' % (sid, sname)),
+        ([8, 1] + NUM(sid) + STR(I("NoSuchSig")) + STR(I("TieMuxer")) + NUM(2) + NUM(3), 'SG_MUL_VAL_ %d NoSuchSig TieMuxer 2-3;' % sid),
+        ([8, 1] + NUM(999) + SN + STR(I("TieMuxer")) + NUM(2) + NUM(3), 'SG_MUL_VAL_ 999 %s TieMuxer 2-3;' % sname),
+        ([8, 0] + NUM(sid) + SN + STR(I("TieMuxer")) + NUM(2) + NUM(3), 'SG_MUL_VAL_ %d %s TieMuxer 2-3' % (sid, sname)),
+        ([8, 1] + BAD + SN + STR(I("TieMuxer")) + NUM(2) + NUM(3), 'SG_MUL_VAL_ abc %s TieMuxer 2-3;' % sname),
+    ]
+    return out
+
+
+def flip(b):
+    return b - (b % 8) + 7 - (b % 8)
+
+
+def parse_model_dbc(out):
+    groups = core.parse_out(out)
+    res = dict(cur=groups[0][1], frames=[], post=None)
+    fr = sg = None
+    for g in groups[1:]:
+        t = g[0]
+        if t == 10:
+            fr = dict(id=g[1], ext=bool(g[2]), name=g[3], size=g[4], complex=bool(g[6]), comment=g[7], attrs={}, signals=[])
+            res["frames"].append(fr)
+        elif t == 11:
+            fr["attrs"] = {g[i]: (g[i + 1], g[i + 2]) for i in range(1, len(g), 3)}
+        elif t == 20:
+            sg = dict(name=g[1], start=g[2], size=g[3], le=bool(g[4]), signed=bool(g[5]), factor=g[6], offset=g[7], mux=g[8], comment=g[9],
+                      values={}, attrs={}, ranges=[])
+            fr["signals"].append(sg)
+        elif t == 21:
+            sg["values"] = {g[i]: g[i + 1] for i in range(1, len(g), 2)}
+        elif t == 22:
+            sg["attrs"] = {g[i]: (g[i + 1], g[i + 2]) for i in range(1, len(g), 3)}
+        elif t == 23:
+            sg["ranges"] = [[g[i], g[i + 1]] for i in range(1, len(g), 2)]
+        elif t == 30:
+            res["post"] = g[1:]
+    return res
+
+
+def compare_dbc(model, db, err, I):
+    """list of differences between the model's final state and what the real reader returned"""
+    D = matgen.D
+    if err:
+        return ["reader raised " + err] if model["post"] != [-2] else []
+    if model["post"] == [-2]:
+        return ["model: post-processing raises, reader returned a matrix"]
+    diffs = []
+    txt = lambda c: I.text.get(c, "<%d>" % c)
+    if len(model["frames"]) != len(db.frames):
+        return ["frame count %d vs %d" % (len(model["frames"]), len(db.frames))]
+    for k, (mf, rf) in enumerate(zip(model["frames"], db.frames)):
+        where = "frame %d" % k
+        got = (rf.arbitration_id.id, bool(rf.arbitration_id.extended), rf.name, int(rf.size), bool(rf.is_complex_multiplexed),
+               rf.comment or None)
+        exp = (mf["id"], mf["ext"], txt(mf["name"]), mf["size"], mf["complex"], None if mf["comment"] < 0 else txt(mf["comment"]))
+        if got != exp:
+            diffs.append("%s: %r vs %r" % (where, exp, got))
+        cyc = model["post"][k]
+        expc = 0 if cyc < 0 else int(float(txt(cyc)))
+        if int(rf.cycle_time) != expc:
+            diffs.append("%s cycle time %r vs %r" % (where, expc, rf.cycle_time))
+        if sorted(txt(c) for c in mf["attrs"]) != sorted(rf.attributes):
+            diffs.append("%s attributes %r vs %r" % (where, sorted(txt(c) for c in mf["attrs"]), sorted(rf.attributes)))
+        else:
+            for c, (tag, v) in mf["attrs"].items():
+                raw = txt(v)
+                real = str(rf.attributes[txt(c)])
+                d = db.frame_defines.get(txt(c))
+                if real not in (raw, raw[1:-1]) and not (d is not None and d.type == "ENUM"):
+                    diffs.append("%s attribute %s %r vs %r" % (where, txt(c), raw, real))
+        if len(mf["signals"]) != len(rf.signals):
+            diffs.append("%s signal count %d vs %d" % (where, len(mf["signals"]), len(rf.signals)))
+            continue
+        for ms, rs in zip(mf["signals"], rf.signals):
+            mux = rs.multiplex
+            mux = -1 if mux is None else (-2 if mux == "Multiplexor" else int(mux))
+            raw_start = int(rs.start_bit) if rs.is_little_endian else flip(int(rs.start_bit))
+            got = (rs.name, raw_start, int(rs.size), bool(rs.is_little_endian), bool(rs.is_signed), matgen._dec_str(rs.factor),
+                   matgen._dec_str(rs.offset), mux, rs.comment or None, {int(a): b for a, b in rs.values.items()},
+                   [list(map(int, r)) for r in rs.mux_val_grp])
+            exp = (txt(ms["name"]), ms["start"], ms["size"], ms["le"], ms["signed"], matgen._dec_str(D(txt(ms["factor"]))),
+                   matgen._dec_str(D(txt(ms["offset"]))), ms["mux"], None if ms["comment"] < 0 else txt(ms["comment"]),
+                   {a: txt(b) for a, b in ms["values"].items()}, ms["ranges"])
+            if got != exp:
+                diffs.append("%s signal %s: %r vs %r" % (where, rs.name, exp, got))
+            if sorted(txt(c) for c in ms["attrs"]) != sorted(rs.attributes):
+                diffs.append("%s signal %s attributes %r vs %r" % (where, rs.name, sorted(txt(c) for c in ms["attrs"]), sorted(rs.attributes)))
+    return diffs
+
+
+# ---- SYM ----
+def sym_tokenise(lines, I):
+    out = []
+    mode = "glob"
+    for (_, _, _, raw) in lines:
+        t = raw.decode("latin1").rstrip("\r\n")
+        s = t.strip()
+        g = [9, 0]
+        if s.startswith("{ENUMS}"):
+            mode = "enums"
+        elif s.startswith("{SENDRECEIVE}") or s.startswith("{SEND}") or s.startswith("{RECEIVE}"):
+            mode = "frames"
+        elif mode == "enums" and s.startswith("enum") and not s.split("//")[0].strip().endswith(")"):
+            raise Unsupported("multi-line enum")
+        elif mode == "frames":
+            g = sym_token(s, I)
+        out.append((g, t, mode))
+    return out
+
+
+def sym_token(s, I):
+    """one well-formed statement of a frame section -> model line"""
+    body = s.split("//")[0].strip()
+    if body.startswith("["):
+        return [1, I(body.replace("[", "").replace("]", "").replace('"', "").strip()), 1]
+    if body.startswith("ID="):
+        return [2] + NUM(int(body[3:-1], 16)) + [1]
+    if body.startswith("Type="):
+        return [3] + (NUM(1) if body[5:] == "Extended" else NUM(0))
+    if body.startswith("DLC="):
+        return [4] + NUM(body[4:])
+    if body.startswith("CycleTime="):
+        return [5] + NUM(body[10:])
+    if body.startswith("Var=") or body.startswith("Mux="):
+        rest = body[4:]
+        if rest.startswith('"'):
+            name, rest = rest[1:].split('"', 1)
+        else:
+            name, rest = rest.split(" ", 1)
+        toks = rest.split()
+        mot = 1 if "-m" in toks else 0
+        if body.startswith("Var="):
+            a, b = toks[1].split(",")
+            return [6] + STR(I(name)) + NUM(1 if toks[0] == "signed" else 0) + NUM(a) + NUM(b) + [mot, 1]
+        a, b = toks[0].split(",")
+        v = toks[1]
+        v = int(v[:-1], 16) if v.endswith("h") else int(v)
+        return [7] + STR(I(name)) + NUM(a) + NUM(b) + NUM(v) + [mot, 1]
+    return [9, 0]
+
+
+def sym_tie_inserts(I, rng):
+    n = lambda t: STR(I(t))
+    return [
+        ([9, 0], "Len=8"), ([9, 0], "FooBar=1"), ([9, 0], "IDENT=1Ah"), ([9, 0], "DLCx=3"), ([9, 0], "Variant=2"),
+        ([1, I("TieFrame"), 1], "[TieFrame]"), ([1, I("TieFrame"), 0], "[TieFrame"),
+        ([2] + NUM(0x2A5) + [1], "ID=2A5h"), ([2] + NUM(0x2A5) + [0], "ID=2A5"), ([2] + BAD + [1], "ID=xyzh"), ([2] + BAD + [1], "ID="),
+        ([3] + NUM(1), "Type=Extended"), ([3] + BAD, "Type=Ext"),
+        ([4] + NUM(5), "DLC=5"), ([4] + BAD, "DLC=x"), ([4] + BAD, "DLC="),
+        ([5] + NUM(70), "CycleTime=70"), ([5] + BAD, "CycleTime=fast"),
+        ([6] + n("TieSig") + NUM(0) + NUM(3) + NUM(5) + [0, 1], "Var=TieSig unsigned 3,5"),
+        ([6] + n("TieSigS") + NUM(1) + NUM(9) + NUM(4) + [1, 1], "Var=TieSigS signed 9,4 -m /f:2 /o:1"),
+        ([6] + n("TieSig") + BAD + BAD + BAD + [0, 1], "Var=TieSig"),
+        ([6] + n("TieSig") + NUM(0) + BAD + BAD + [0, 1], "Var=TieSig unsigned"),
+        ([6] + n("TieSig") + NUM(0) + BAD + BAD + [0, 1], "Var=TieSig unsigned 8"),
+        ([6] + n("TieSig") + NUM(0) + BAD + NUM(8) + [0, 1], "Var=TieSig unsigned a,8"),
+        ([6] + n("TieSig") + NUM(0) + NUM(0) + BAD + [0, 1], "Var=TieSig unsigned 0,x"),
+        ([6] + n("TieSig") + BAD + NUM(0) + NUM(8) + [0, 1], "Var=TieSig foo 0,8"),
+        ([6] + n("TieSig") + NUM(0) + NUM(0) + NUM(8) + [0, 0], "Var=TieSig unsigned 0,8 /f:abc"),
+        ([6] + n("TieSig") + NUM(0) + NUM(0) + NUM(8) + [1, 0], "Var=TieSig unsigned 0,8 -m /max:abc"),
+        ([6] + n("TieSig") + NUM(0) + NUM(0) + NUM(8) + [0, 0], "Var=TieSig unsigned 0,8 /p:abc"),
+        ([7] + n("TieMux") + NUM(0) + NUM(4) + NUM(9) + [0, 1], "Mux=TieMux 0,4 9"),
+        ([7] + n("TieMuxH") + NUM(0) + NUM(4) + NUM(0x1B) + [0, 1], "Mux=TieMuxH 0,4 1Bh"),
+        ([7] + n("TieMux") + NUM(0) + NUM(4) + STR(0) + [0, 1], "Mux=TieMux 0,4 zz"),
+        ([7] + n("TieMux") + NUM(0) + NUM(4) + BAD + [0, 1], "Mux=TieMux 0,4"),
+        ([7] + n("TieMux") + BAD + BAD + BAD + [0, 1], "Mux=TieMux"),
+        ([7] + n("TieMux") + BAD + NUM(4) + NUM(9) + [0, 1], "Mux=TieMux a,4 9"),
+        ([7] + n("TieMux") + NUM(0) + NUM(4) + NUM(9) + [1, 0], "Mux=TieMux 0,4 9 -m /f:abc"),
+        ([7] + n("TieMux") + NUM(0) + NUM(4) + NUM(9) + [1, 0], "Mux=TieMux 0,4 9 -m /min:abc"),
+    ]
+
+
+def compare_sym(out, db, err, I):
+    groups = core.parse_out(out)
+    if err:
+        return [] if groups[0][0] == 0 else ["reader raised " + err]
+    if groups[0][0] == 0:
+        return ["model: the end-of-file step raises, reader returned a matrix"]
+    diffs = []
+    txt = lambda c: I.text.get(c, "<%d>" % c)
+    if groups[0][1] != len(db.load_errors):
+        diffs.append("load_errors %d vs %d" % (groups[0][1], len(db.load_errors)))
+    frames = []
+    for g in groups[1:]:
+        if g[0] == 10:
+            frames.append(dict(name=g[1], id=g[2], ext=bool(g[3]), size=g[4], cycle=g[5],
+                               mux={g[i]: g[i + 1] for i in range(6, len(g), 2)}, signals=[]))
+        else:
+            frames[-1]["signals"].append(g[1:])
+    if len(frames) != len(db.frames):
+        return diffs + ["frame count %d vs %d" % (len(frames), len(db.frames))]
+    for mf, rf in zip(frames, db.frames):
+        exp = (txt(mf["name"]), mf["id"], mf["ext"], mf["size"], mf["cycle"], {k: txt(v) for k, v in mf["mux"].items()})
+        got = (rf.name, rf.arbitration_id.id, bool(rf.arbitration_id.extended), int(rf.size), int(rf.cycle_time), dict(rf.mux_names))
+        if exp != got:
+            diffs.append("frame %r vs %r" % (exp, got))
+        if len(mf["signals"]) != len(rf.signals):
+            diffs.append("frame %s signal count %d vs %d" % (rf.name, len(mf["signals"]), len(rf.signals)))
+            continue
+        for ms, rs in zip(mf["signals"], rf.signals):
+            is_mux = ms[5] == -2
+            name = (rf.name + "_MUX") if ms[0] <= -1000 else txt(ms[0])
+            if ms[0] <= -1000 and -ms[0] - 1000 != mf["name"]:
+                diffs.append("multiplexer signal of another frame name")
+            mux = rs.multiplex
+            mux = -1 if mux is None else (-2 if mux == "Multiplexor" else int(mux))
+            # byte order (and hence the start bit notation) of the <frame>_MUX signal is C06's subject: not compared
+            exp = (name, ms[1] if not is_mux else None, ms[2], bool(ms[3]) if not is_mux else None, bool(ms[4]), ms[5])
+            got = (rs.name, int(rs.get_startbit()) if not is_mux else None, int(rs.size), bool(rs.is_little_endian) if not is_mux else None,
+                   bool(rs.is_signed), mux)
+            if exp != got:
+                diffs.append("frame %s signal %r vs %r" % (rf.name, exp, got))
+    return diffs
+
+
 def tie(chk, ok, rng, thorough):
-    chk.ties["correspondence"] = "not run"
+    cm = core.import_impl()
+    C = cm.canmatrix
+    F = impl()
+    if not ok:
+        chk.ties["correspondence"] = "not run (build failed)"
+        return
+    cases = []          # (cmd, groups, fmt, text, info)
+    n_files = 40 if thorough else 12
+    per_file = 160 if thorough else 70
+    for k in range(n_files):
+        # ---- DBC ----
+        db = matgen.gen_matrix(rng, C, **TIE_DBC_FEATURES)
+        b = io.BytesIO()
+        F.dump(db, b, "dbc")
+        lines = split_lines(b.getvalue())
+        I = Interner()
+        try:
+            toks = dbc_tokenise(lines, I)
+        except Unsupported as e:
+            chk.count("tie-dbc-file-outside-language")
+            continue
+        defs = dbc_defs(lines)
+        ids = [d[0] for d in defs]
+        ctx = dict(frame_ids=ids, sigs=[(d[0], s[1]) for d in defs for s in d[2]] or [(ids[0], "NoSig")], fresh_id=0x7F0 + k % 8)
+        ins = dbc_tie_inserts(ctx, I, rng)
+        cases.append((2001, [g for g, _ in toks], "dbc", "\n".join(t for _, t in toks) + "\n", dict(file="tie-dbc-%d" % k, inserted=[]), I))
+        for j in range(per_file):
+            m = 1 if j < len(ins) else rng.choice([1, 2, 3])
+            chosen = [ins[j]] if j < len(ins) else [ins[rng.randrange(len(ins))] for _ in range(m)]
+            seq = list(toks)
+            rec = []
+            for g, t in chosen:
+                p = rng.randrange(len(seq) + 1)          # any statement boundary, also inside a signal list
+                seq.insert(p, (g, t))
+                rec.append(t)
+            cases.append((2001, [g for g, _ in seq], "dbc", "\n".join(t for _, t in seq) + "\n", dict(file="tie-dbc-%d" % k, inserted=rec), I))
+        # ---- SYM ----
+        db = matgen.gen_matrix(rng, C, **TIE_SYM_FEATURES)
+        b = io.BytesIO()
+        F.dump(db, b, "sym")
+        lines = split_lines(b.getvalue())
+        I = Interner()
+        try:
+            toks = sym_tokenise(lines, I)
+        except Unsupported:
+            chk.count("tie-sym-file-outside-language")
+            continue
+        ins = sym_tie_inserts(I, rng)
+        first = min(i for i, (_, _, mode) in enumerate(toks) if mode == "frames")
+        base = [(g, t) for g, t, _ in toks]
+        cases.append((2003, [g for g, _ in base], "sym", "\n".join(t for _, t in base) + "\n", dict(file="tie-sym-%d" % k, inserted=[]), I))
+        for j in range(per_file):
+            chosen = [ins[j]] if j < len(ins) else [ins[rng.randrange(len(ins))] for _ in range(rng.choice([1, 2, 3]))]
+            seq = list(base)
+            rec = []
+            for g, t in chosen:
+                p = rng.randrange(first + 1, len(seq) + 1)      # inside the frame sections
+                seq.insert(p, (g, t))
+                rec.append(t)
+            cases.append((2003, [g for g, _ in seq], "sym", "\n".join(t for _, t in seq) + "\n", dict(file="tie-sym-%d" % k, inserted=rec), I))
+    lines_out = [core.fmt_case(cmd, groups if groups else [[9, 0]]) for cmd, groups, _, _, _, _ in cases]
+    outs = core.run_model(lines_out)
+    bad = 0
+    for (cmd, groups, fmt, text, info, I), o in zip(cases, outs):
+        db, err = load(text.encode("latin1"), fmt)
+        chk.count("tie-%s-cases" % fmt)
+        if fmt == "dbc":
+            diffs = compare_dbc(parse_model_dbc(o), db, err, I)
+        else:
+            diffs = compare_sym(o, db, err, I)
+        chk.case(("tie", fmt, text), bool(info["inserted"]))
+        if diffs:
+            bad += 1
+            chk.tie_break("linefold-" + fmt, dict(info, text_b64=b64(text.encode("latin1"))), o[:300], diffs[:4])
+    chk.ties["correspondence"] = {"suite": "linefold (cmd 2001 dbc_step, 2003 sym_step) vs canmatrix.formats.loads on generated files with "
+                                           "inserted valid, malformed and dangling statements at arbitrary statement boundaries",
+                                  "cases": len(cases), "disagreements": bad}
+    # in-Coq shard: the extracted driver's answers are re-computed by vm_compute
+    idx = rng.sample(range(len(cases)), min(40, len(cases)))
+    shard = [(cases[i][0], cases[i][1] if cases[i][1] else [[9, 0]], core.parse_out(outs[i])) for i in idx]
+    mm, log = core.coq_shard(shard, "c20")
+    chk.ties["vm_compute_shard"] = {"cases": len(shard), "mismatches": mm}
+    if mm is None:
+        chk.obligation_failures.append("in-Coq shard failed to evaluate")
+        chk.build_log = log[-3000:]
+    else:
+        for i in mm:
+            chk.tie_break("linefold-shard", shard[i][1][:5], "vm_compute differs from the extracted driver", shard[i][2][:5])
